@@ -18,6 +18,7 @@ struct vh_config {
 	bool poison;              /* ASan-poison released message buffers */
 	bool check_commit;        /* compare committed events with the reference (needs the model) */
 	bool monotone_predicates; /* the model's predicates never flip back once true */
+	bool baton;               /* serialized exploration: one worker thread runs at a time, switches only at hook points, seeded picks */
 	unsigned digest_budget;   /* state digests are taken only while the LP's live buffers are below this many bytes */
 	/* callbacks into the model side */
 	uint64_t (*state_digest)(struct lp_ctx *lp); /* content-based digest of the LP state (addresses excluded) */
@@ -58,6 +59,7 @@ extern unsigned vh_threads_seen(void);
 extern uint64_t vh_lp_committed(uint64_t lp);     /* committed events compared so far (C03 cursor) */
 extern int vh_lp_owner(uint64_t lp);
 extern unsigned vh_lp_undone(uint64_t lp);
+extern unsigned long long vh_baton_switches(void);
 extern uint64_t vh_schedule_signature(void);
 
 /* ---- watchdog support ---- */
